@@ -578,6 +578,22 @@ def _spec_mcol(self, e, fr):
     return col_vector(self, o, s, ln, b2i(z(self.ev(e.args[3], fr))))
 
 
+def _spec_shares_cells(self, e, fr):
+    """the two containers are the same object or are backed by the same cell storage (ndarray / frame values)"""
+    a, b = self.ev(e.args[0], fr), self.ev(e.args[1], fr)
+    if not (isinstance(a, Ref) and isinstance(b, Ref)):
+        raise X.PyRaise("TypeError", "not containers")
+    if a.oid == b.oid:
+        return True
+    fa, fb = _frame_of(self, a), _frame_of(self, b)
+    ma = fa.mat.oid if fa is not None else a.oid
+    mb = fb.mat.oid if fb is not None else b.oid
+    return ma == mb
+
+
+X.Interp.spec_shares_cells = _spec_shares_cells
+
+
 for _n, _f in (("cell", _spec_cell), ("mrows", _spec_mrows), ("mcols", _spec_mcols), ("is_frame", _spec_is_frame),
                ("same_container", _spec_same_container), ("colidx", _spec_colidx), ("valid_col", _spec_valid_col),
                ("mcol", _spec_mcol)):
